@@ -59,7 +59,13 @@ impl<const T: JoinType> HashJoinExecutor<T> {
             let chunk = chunk?;
             let keys_chunk = Evaluator::new(&self.right_keys).eval_list(&chunk)?;
             for (right_row, keys) in chunk.rows().zip(keys_chunk.rows()) {
-                if let Some(left_rows) = hash_map.get_mut(&keys.values().collect::<JoinKeys>()) {
+                let keys = keys.values().collect::<JoinKeys>();
+                // a NULL key equals nothing, not even another NULL
+                let left_rows = match keys.iter().any(|k| k.is_null()) {
+                    true => None,
+                    false => hash_map.get_mut(&keys),
+                };
+                if let Some(left_rows) = left_rows {
                     left_rows.matched = true;
                     for left_row in &left_rows.rows {
                         let values = left_row.iter().cloned().chain(right_row.values());
@@ -131,7 +137,10 @@ impl HashSemiJoinExecutor {
             let keys_chunk = Evaluator::new(&self.left_keys).eval_list(&chunk)?;
             let exists = keys_chunk
                 .rows()
-                .map(|key| key_set.contains(&key.values().collect::<JoinKeys>()) ^ self.anti)
+                .map(|key| key.values().collect::<JoinKeys>())
+                // a NULL key equals nothing, not even another NULL
+                .map(|key| !key.iter().any(|k| k.is_null()) && key_set.contains(&key))
+                .map(|exists| exists ^ self.anti)
                 .collect::<Vec<bool>>();
             yield chunk.filter(&exists);
         }
@@ -177,7 +186,13 @@ impl HashSemiJoinExecutor2 {
             let keys_chunk = Evaluator::new(&self.left_keys).eval_list(&chunk)?;
             let mut exists = Vec::with_capacity(chunk.cardinality());
             for (key, lrow) in keys_chunk.rows().zip(chunk.rows()) {
-                let b = if let Some(rchunk) = key_set.get(&key.values().collect::<JoinKeys>()) {
+                let key = key.values().collect::<JoinKeys>();
+                // a NULL key equals nothing, not even another NULL
+                let rchunk = match key.iter().any(|k| k.is_null()) {
+                    true => None,
+                    false => key_set.get(&key),
+                };
+                let b = if let Some(rchunk) = rchunk {
                     let lchunk = self.left_row_to_chunk(&lrow, rchunk.cardinality());
                     let join_chunk = lchunk.row_concat(rchunk.clone());
                     let ArrayImpl::Bool(a) = Evaluator::new(&self.condition).eval(&join_chunk)?
